@@ -45,7 +45,7 @@ class _Likelihood(Module, ABC):
         self, observations: Tensor, function_dist: MultivariateNormal, *args: Any, **kwargs: Any
     ) -> Tensor:
         likelihood_samples = self._draw_likelihood_samples(function_dist, *args, **kwargs)
-        res = likelihood_samples.log_prob(observations, *args, **kwargs).mean(dim=0)
+        res = likelihood_samples.log_prob(observations).mean(dim=0)
         return res
 
     @abstractmethod
